@@ -14,7 +14,7 @@
     compose stream: that P1 binds none of P2's names when their texts share none (a scope-key invariant not proved), and
     that the run of P1;P2 reaches the first statement of P2 exactly when P1 alone ends normally. *)
 From Pakhi Require Import Base Float64 Syntax Tables Lexer Interp.
-From Pakhi.Proofs Require Import Scope Control GCMark GCSweep WF WFOps Frames FrameInv Sim2Defs Sim2 Compose TopLevel Fragments.
+From Pakhi.Proofs Require Import Scope Control GCMark GCSweep WF WFOps Frames FrameInv Sim2Defs Sim2 Compose TopLevel Fragments PrefixRun FragmentsAlone.
 Local Open Scope nat_scope.
 
 Theorem C19_control_state_is_neutral_between_fragments : forall code, code_ok code -> forall platform w fuel sched, code <> [] ->
@@ -106,3 +106,33 @@ Proof.
   destruct (collect_correct h ss Hh Hs) as (h2 & E & P). rewrite E in Hc. injection Hc as <-. exact P.
 Qed.
 Print Assumptions C19_no_residue_of_discarded_containers.
+
+(* P1;P2 reaches P2's first statement in exactly the machine in which P1, run as a program of its own, ends: every
+   successful step of P1 alone is the step P1;P2 makes (same fuel, same collection schedule) *)
+Theorem C19_p1_alone_is_a_prefix_of_p1_p2 : forall c1 c2 pe s0 r2,
+  c2 = s0 :: r2 -> (forall p, s0 <> FElse p) -> Forall (fun s => is_eos s = false) c1 ->
+  forall fuel sched b m m1 mlast,
+  run (code1 c1 pe) fuel sched b m = (Ok m1, mlast) ->
+  m_pc m1 = length c1 /\
+  exists j, j <= fuel /\ run (codeA c1 c2) fuel sched b m = run (codeA c1 c2) (fuel - j) sched (b + j) m1.
+Proof. exact p1_alone_is_a_prefix. Qed.
+Print Assumptions C19_p1_alone_is_a_prefix_of_p1_p2.
+
+(* end to end from "P1 alone terminates normally": P1;P2 passes through P1's final machine, and from there ends like P2
+   alone -- the name hypothesis is about the final global scope of P1 ALONE *)
+Theorem C19_fragments_compose_after_p1_alone : forall c1 c2 pe pi (N : text -> Prop) platform w fuel1 sched1 m1 mlast s0 r2,
+  map (smap idn pi) c2 = s0 :: r2 -> (forall p, s0 <> FElse p) -> Forall (fun s => is_eos s = false) c1 ->
+  code_ok (code1 c1 pe) -> code_ok (codeA c1 (map (smap idn pi) c2)) -> code_ok c2 -> c2 <> [] ->
+  run (code1 c1 pe) fuel1 sched1 0 (init_machine platform w) = (Ok m1, mlast) ->
+  closed_at (code1 c1 pe) (length c1) ->
+  (forall pc s, stmt_at c2 pc = Some s -> Forall N (snames s)) ->
+  (forall g, m_scopes m1 = [g] -> alist_get platform_const g = Some (VStr platform) /\
+             forall x, N x -> x <> platform_const -> alist_get x g = None) ->
+  (exists j, j <= fuel1 /\ run (codeA c1 (map (smap idn pi) c2)) fuel1 sched1 0 (init_machine platform w)
+                           = run (codeA c1 (map (smap idn pi) c2)) (fuel1 - j) sched1 j m1) /\
+  m_pc m1 = length c1 /\
+  forall fuel schedA schedB bA,
+    same_end2 pi (m_out m1) (fst (run (codeA c1 (map (smap idn pi) c2)) fuel schedA bA m1))
+                            (fst (run c2 fuel schedB 0 (init_machine platform (m_world m1)))).
+Proof. exact compose_after_p1_alone. Qed.
+Print Assumptions C19_fragments_compose_after_p1_alone.
